@@ -52,12 +52,18 @@ public:
         {
             throw budget_exceeded_t{};
         }
-        return m_inner->vgrad(x, gx);
+        const auto fx = m_inner->vgrad(x, gx);
+        if (std::isfinite(fx))
+        {
+            m_max_abs_f = std::max(m_max_abs_f, std::fabs(fx));
+        }
+        return fx;
     }
 
-    rfunction_t     m_inner;
-    int64_t         m_cap;
-    mutable int64_t m_f{0}, m_g{0};
+    rfunction_t      m_inner;
+    int64_t          m_cap;
+    mutable int64_t  m_f{0}, m_g{0};
+    mutable scalar_t m_max_abs_f{0}; ///< largest finite |f| the solver has seen
 };
 
 ///
